@@ -42,6 +42,7 @@ CONSTANTS Tiles,          \* tile ids
           Backend,        \* "file" (mtime with sub-second part) | "sqlite" (last_modified in whole seconds)
           Path,           \* "single" | "meta" | "bulk": how the tile manager creates tiles
           CopyInfo, ResetStamp, BranchFlavours,
+          Lenient,        \* BOOLEAN: admit 304 as well where If-Modified-Since equals the Last-Modified second (see Respond)
           MaxClock,       \* bound of the clock (half seconds)
           Sizes           \* size classes of tile bodies
 
@@ -81,7 +82,7 @@ HandlerKind(f) == IF f \in BranchFlavours THEN "branch"
 (* Response.cache_headers + make_conditional as called by the handlers.    *)
 (* info = [ts, size, cacheable] as the handler reads it (-1 = None).       *)
 (***************************************************************************)
-Respond(f, t, h, info, bodyv, phase) ==
+Resp(f, t, h, info, bodyv, phase, lenient) ==
   LET kind   == HandlerKind(f)
       useVal == kind # "branch" \/ info.cacheable
       etag   == IF useVal THEN Etag(info.ts, info.size) ELSE NONE_E
@@ -91,9 +92,17 @@ Respond(f, t, h, info, bodyv, phase) ==
                 ELSE IF kind = "wmsc_both" /\ ~info.cacheable THEN "both" ELSE "public"
       nm     == \/ etag # NONE_E /\ h.inm # NOHDR /\ h.inm = etag
                 \/ ts # -1 /\ h.ims >= 0 /\ ts <= 2 * h.ims
+                \/ lenient /\ ts # -1 /\ h.ims = lm
   IN [act |-> "Get", f |-> f, t |-> t, h |-> h, phase |-> phase,
       status |-> IF nm THEN 304 ELSE 200, etag |-> etag, lm |-> lm,
       body |-> IF nm THEN -1 ELSE bodyv, cc |-> cc, prevserved |-> served[t]]
+
+\* The code compares the stored time including its sub-second part with the whole seconds of If-Modified-Since,
+\* so a client that sends back the Last-Modified it received gets the body again when the tile was written at a
+\* fraction of a second.  Answering 304 there is equally sound; the model admits both (tolerance, not a decision).
+\* Lenient = FALSE is the code as it is (used for counterexamples and for behaviours to replay).
+Respond(f, t, h, info, bodyv, phase) ==
+  {Resp(f, t, h, info, bodyv, phase, FALSE)} \cup (IF Lenient THEN {Resp(f, t, h, info, bodyv, phase, TRUE)} ELSE {})
 
 Step(a, t) == [act |-> a, f |-> "-", t |-> t, h |-> NoCond, phase |-> "-", status |-> 0, etag |-> NONE_E,
                lm |-> -1, body |-> -1, cc |-> "-", prevserved |-> NoServed]
@@ -108,8 +117,8 @@ Init ==
 GetCached(f, t, h) ==
   /\ Fresh(t)
   /\ LET info == [ts |-> cache[t].m, size |-> cache[t].s, cacheable |-> TRUE]
-         r    == Respond(f, t, h, info, cache[t].v, "cached")
-     IN /\ resp' = r /\ issued' = issued \cup {r.etag}
+     IN \E r \in Respond(f, t, h, info, cache[t].v, "cached") :
+        /\ resp' = r /\ issued' = issued \cup {r.etag}
         /\ served' = [served EXCEPT ![t] = [etag |-> r.etag, lm |-> r.lm,
                                             body |-> IF r.status = 200 THEN r.body ELSE served[t].body]]
   /\ UNCHANGED <<cache, prev, clock, thr, ver>>
@@ -121,24 +130,25 @@ PreSize(t) == IF cache[t] = NoTile THEN -1 ELSE cache[t].s
 Rewritten(t, s) == [u \in Tiles |-> IF u \in Created(t) THEN [m |-> StoreTime(clock), s |-> s, v |-> ver] ELSE cache[u]]
 PrevAfter(t)    == [u \in Tiles |-> IF u \in Created(t) /\ cache[u] # NoTile THEN cache[u] ELSE prev[u]]
 
-\* (a tile is never written twice within one stored time unit - the virtual clock would give both versions the
-\* same timestamp, which real clocks do not; at the one-second granularity of sqlite the validators cannot tell
-\* such versions apart)
+\* Time moves on when tiles are written (clock' = clock + 1 in GetCreate and Rewrite): two writes never read the
+\* same clock value, as with a real clock.  At the one-second granularity of sqlite two versions written within
+\* one second still get the same stored timestamp and (mtime, size) validators cannot tell them apart, so a tile
+\* is not rewritten within the stored time unit in which it was written.
 NotTwiceAtOnce(t) == \A u \in Created(t) : cache[u] = NoTile \/ StoreTime(clock) > cache[u].m
 
 GetCreate(f, t, h, s) ==
   /\ ~Fresh(t)
-  /\ NotTwiceAtOnce(t)
+  /\ NotTwiceAtOnce(t) /\ clock < MaxClock
   /\ LET info == IF Path = "single"
                    THEN [ts |-> IF ResetStamp \/ PreTs(t) = -1 THEN clock ELSE PreTs(t), size |-> s, cacheable |-> TRUE]
                  ELSE IF CopyInfo THEN [ts |-> clock, size |-> s, cacheable |-> TRUE]
                  ELSE [ts |-> PreTs(t), size |-> PreSize(t), cacheable |-> TRUE]
-         r    == Respond(f, t, h, info, ver, IF cache[t] = NoTile THEN "create" ELSE "refresh")
-     IN resp' = r /\ issued' = issued \cup {r.etag}
+     IN \E r \in Respond(f, t, h, info, ver, IF cache[t] = NoTile THEN "create" ELSE "refresh") :
+           resp' = r /\ issued' = issued \cup {r.etag}
   /\ cache' = Rewritten(t, s) /\ prev' = PrevAfter(t)
   /\ served' = [u \in Tiles |-> IF u \in Created(t) THEN NoServed ELSE served[u]]
-  /\ ver' = ver + 1
-  /\ UNCHANGED <<clock, thr>>
+  /\ ver' = ver + 1 /\ clock' = clock + 1
+  /\ UNCHANGED thr
 
 GetError(f, t, h) ==
   /\ ~Fresh(t)
@@ -147,19 +157,18 @@ GetError(f, t, h) ==
                          cacheable |-> FALSE]
                  ELSE IF CopyInfo THEN [ts |-> -1, size |-> -1, cacheable |-> FALSE]
                  ELSE [ts |-> PreTs(t), size |-> PreSize(t), cacheable |-> TRUE]
-         r    == Respond(f, t, h, info, 0, "error")
-     IN resp' = r /\ issued' = issued \cup {r.etag}
+     IN \E r \in Respond(f, t, h, info, 0, "error") : resp' = r /\ issued' = issued \cup {r.etag}
   /\ UNCHANGED <<cache, prev, clock, thr, ver, served>>
 
 \* a seeder (another process) removes and re-creates the tile; never twice within one stored time unit
 Rewrite(t, s) ==
   /\ cache[t] # NoTile
-  /\ NotTwiceAtOnce(t)
+  /\ NotTwiceAtOnce(t) /\ clock < MaxClock
   /\ cache' = Rewritten(t, s) /\ prev' = PrevAfter(t)
   /\ served' = [u \in Tiles |-> IF u \in Created(t) THEN NoServed ELSE served[u]]
-  /\ ver' = ver + 1
+  /\ ver' = ver + 1 /\ clock' = clock + 1
   /\ resp' = [Step("Rewrite", t) EXCEPT !.body = s]
-  /\ UNCHANGED <<clock, thr, issued>>
+  /\ UNCHANGED <<thr, issued>>
 
 Expire ==
   /\ thr # clock \div 2
@@ -208,7 +217,10 @@ Spec == Init /\ [][Next]_vars
 (* that requests do not crowd out the environment actions, and only ETags  *)
 (* a client has really received (or NN / an unknown one).                  *)
 (***************************************************************************)
-SimHdrs(t) == {h \in Hdrs(t) : h.inm \in issued \cup {NOHDR, GARB, NN}}
+\* (and no If-Modified-Since on the tolerance boundary, where the model does not decide the status)
+OnBoundary(t, d) == \/ clock % 2 = 1 /\ d = clock \div 2
+                    \/ cache[t] # NoTile /\ cache[t].m % 2 = 1 /\ d = cache[t].m \div 2
+SimHdrs(t) == {h \in Hdrs(t) : h.inm \in issued \cup {NOHDR, GARB, NN} /\ ~OnBoundary(t, h.ims)}
 SimGet == \E f \in {RandomElement(Flavours)}, t \in {RandomElement(Tiles)}, s \in {RandomElement(Sizes)} :
              \E h \in {RandomElement(SimHdrs(t))} :
                 GetCached(f, t, h) \/ GetCreate(f, t, h, s) \/ GetError(f, t, h)
